@@ -350,9 +350,17 @@ def structural_equality(ctx, rid, core):
                 ("loop-over", ("call", "zip", ll, lr)),
                 ("when", ("un", "Not", ("try", ("call", "equals", ("loopvar",), ("loopvar",)))), ("return", ("lit", "false"))),
                 ("value", ("lit", "true"))]
-        v_list = S.verdict(tuple(lv), tuple(want))
-        if v_list is not True and any(S.contains_call(x, "compare") or S.contains_call(x, "partial_cmp") or S.contains_call(x, "stringify") or S.contains_call(x, "stringify_internal") for x in lv):
-            v_list = False  # equality answered through the ordering (no answer for null / records / functions) or through a printed form
+        v_list = True if S.verdict(tuple(lv), tuple(want)) is True else None
+        if v_list is None:
+            # another way of writing the walk (try_fold, all, iterator chains): positively wrong is only an equality answered through the
+            # ordering (no answer for null / records / functions) or a printed form, one that never calls equals on the elements, or one
+            # without an exact test of the two lengths (zip stops at the shorter list: a list would equal its extensions)
+            body_l = EQ[key][1]["body"]
+            calls_ = {x["name"] for x in H.walk(body_l) if H.kind(x) == "MethodCall"}
+            exact_len = any(H.kind(x) == "Binary" and x["op"] in ("Ne", "Eq") and all(H.kind(H.strip(y)) == "MethodCall" and H.strip(y)["name"] == "len" for y in (x["l"], x["r"])) for x in H.walk(body_l))
+            one_sided = any(H.kind(x) == "Binary" and x["op"] in ("Lt", "Gt", "Le", "Ge") and all(H.kind(H.strip(y)) == "MethodCall" and H.strip(y)["name"] == "len" for y in (x["l"], x["r"])) for x in H.walk(body_l))
+            if calls_ & {"compare", "partial_cmp", "stringify", "stringify_internal", "to_string"} or "equals" not in calls_ or one_sided or (not exact_len and "zip" in calls_):
+                v_list = False
         ctx.inst(rid, "equals#List", v_list, "equals on lists: length test `!=`, zip of both lists, first unequal element -> false, else true: %s" % (lv == want), H.loc(EQ[key][1]["body"]))
     else:
         ctx.inst(rid, "equals#List", None, "no (List, List) arm found in equals", None)
